@@ -165,12 +165,24 @@ def run(ctx):
                 continue
             a = names[(gi + di) % len(names)]
             b = names[(gi + 2 * di + 1) % len(names)]          # sometimes the same: a structure and its own copy
-            combos.append((a, b, gap, d, (gi + di) % 2))
+            # every third union: the second part's numbering starts with the number the first part ends with
+            combos.append((a, b, gap, d, (gi + di) % 2, (gi + 2 * di) % 3 == 0))
     rels = []
     skipped = 0
-    for a, b, gap, d, order in combos:
+    for a, b, gap, d, order, meet in combos:
         al = ps[a]
         bl = fresh_chains(ps[b], {ln[21] for ln in al if C.is_atom(ln)})
+        if meet:
+            first, second = (al, bl) if order == 0 else (bl, al)
+            n_last = [C.resid(ln)[1] for ln in first if C.is_atom(ln)][-1]
+            n_first = [C.resid(ln)[1] for ln in second if C.is_atom(ln)][0]
+            nums = [C.resid(ln)[1] for ln in second if C.is_atom(ln)]
+            delta = n_last - n_first
+            if -999 <= min(nums) + delta and max(nums) + delta <= 9999:
+                if order == 0:
+                    bl = C.shift_numbers(bl, delta)
+                else:
+                    al = C.shift_numbers(al, delta)
         pl = place(al, bl, gap, d)
         if pl is None:
             skipped += 1
@@ -182,7 +194,7 @@ def run(ctx):
         ta, tb = C.join(strip_ter(a2) + [C.TER]), C.join(strip_ter(b2) + [C.TER])
         ru = runner.run(union, ["-q"], write=False)
         ctx.count()
-        meta = {"a": a, "b": b, "gap_mA": gap, "direction": d, "order": order, "pdb": union}
+        meta = {"a": a, "b": b, "gap_mA": gap, "direction": d, "order": order, "numbers_meet": meet, "pdb": union}
         if ru.exc is not None:
             ctx.violation(f"union:exception:{type(ru.exc).__name__}:{'beyond-1000A' if gap > 900000 else 'near'}",
                           f"union of {a} and {b} at {gap / 1000} A along {d} raises {ru.exc!r}", meta)
@@ -209,7 +221,7 @@ def run(ctx):
                                f"{relations.diff_summary(rel)}", {"pdb": m["pdb"], "part_pdb": m["part_pdb"]})
     if rels:
         m = rels[0]["meta"]
-        ctx.sample({k: m[k] for k in ("a", "b", "gap_mA", "direction", "order")})
+        ctx.sample({k: m[k] for k in ("a", "b", "gap_mA", "direction", "order", "numbers_meet")})
     ctx.extra["relation_pairs"] = len(rels)
 
 
